@@ -89,6 +89,8 @@ func (k Keeper) CalculateBatchAllocation(ctx context.Context, auction types.Auct
 		MatchResultByBidder: map[string]*types.BidderMatchResult{},
 	}
 
+	noMatchRes := matchRes
+
 	// We use binary search to find the best(the lowest possible) matching price.
 	// Note that the returned index from sort.Search is not used, since
 	// we're already storing the match result inside the closure.
@@ -100,10 +102,19 @@ func (k Keeper) CalculateBatchAllocation(ctx context.Context, auction types.Auct
 		// from the lowest price.
 		i = (len(prices) - 1) - i
 		res, matched := types.Match(prices[i], prices, bidsByPrice, sellingAmt, allowedBidders)
-		if matched { // If we found a valid matching price, store the result
-			matchRes = res
+		// Match returns a nil result only when the bids at or above this price exceed the
+		// selling amount. Whether they fit is monotone in the price, which binary search
+		// requires; whether something positive was matched is not (a bid that converts
+		// to zero coins at a high price matches nothing there).
+		fits := res != nil
+		if fits {
+			if matched { // If we found a valid matching price, store the result
+				matchRes = res
+			} else { // The lowest fitting price matches nothing: nothing is sold
+				matchRes = noMatchRes
+			}
 		}
-		return matched
+		return fits
 	})
 
 	mInfo.MatchedLen = int64(len(matchRes.MatchedBids))
